@@ -43,6 +43,18 @@ def natOps (n : Nat) : Ops Nat where
   /- `MInt`s hold reduced residues (an invariant of `ZmodN`, property C07): `==` is equality of residues -/
   eq a b := a % n == b % n
 
+/-- the operations of `ZmodN` on the integers held by the `MInt`s (Montgomery forms, `R = 2^(64·kw)`,
+`rinv = R⁻¹ mod n`), at value level as proved in C07: `mul` is the Montgomery product `a·b·R⁻¹ mod n`,
+`one` is `R mod n`, `inv` is `a⁻¹·R² mod n`, `==` compares residues -/
+def montOps (n kw rinv : Nat) : Ops Nat where
+  zero := 0
+  one := 2 ^ (64 * kw) % n
+  add a b := (a + b) % n
+  sub a b := (a + n - b % n) % n
+  mul a b := a * b * rinv % n
+  inv a := (Ymq.PolySpec.invMod a n).map fun i => i * (2 ^ (64 * kw) * 2 ^ (64 * kw) % n) % n
+  eq a b := a % n == b % n
+
 variable {α : Type}
 
 /-- `_add(zn, z, x)` / `_sub`: pointwise on two slices; `assert_eq!(z.len(), x.len())` -/
